@@ -822,6 +822,48 @@ def rule_r16(repo, run, T):
     run.floor(R, "size variables declared by entries", n, 3)
 
 
+def rule_r17(repo, run, T):
+    R = run.rule("C03.R17", "result and argument values reach Python through the statements written for them: the lookup path of "
+                            "a pointer result is assembled in the order the table's keys are written in, and an argument is "
+                            "left out of the returned values exactly when it is +hidden")
+    wp = repo.module("wrapp")
+    py = T["py"]
+    pr = wp.func("Wrapp.process_function_result")
+    # the parts appended to `stmts` for a native pointer result, in program order
+    apps = sorted([c for c in ast.walk(pr) if isinstance(c, ast.Call) and str(wp.seg(c.func)) == "stmts.append"],
+                  key=lambda c: (c.lineno, c.col_offset))
+    order = [str(wp.seg(c.args[0])) for c in apps]
+    if "deref" not in order or "options.PY_array_arg" not in order:
+        raise AnalysisError("C03.R17: path parts of process_function_result not recognised: %s" % order)
+    n = 0
+    for dv in ("pointer",):
+        for av in ("list", "numpy"):
+            parts = [dv if o == "deref" else av for o in order if o in ("deref", "options.PY_array_arg")]
+            path = ["py", "native", "*", "result"] + parts
+            e = py.lookup(path, "c++")
+            n += 1
+            full = e is not None and e.name == "_".join(path)
+            run.check(R, "wrapp.Wrapp.process_function_result:path[%s]" % "_".join(parts), full,
+                      "a native pointer result with +dimension is looked up as %s, which resolves to %s: the parts are appended in "
+                      "another order than the table's keys are written (py_native_*_result_<deref>_<list|numpy>), so the "
+                      "result is returned as a scalar (its first element)" % ("_".join(path), e.name if e is not None else "py_default"),
+                      wp.loc(pr), sample=dict(path=path))
+    # out / inout arguments join the returned tuple unless hidden
+    wf = wp.func("Wrapp.wrap_function")
+    adds = [c for c in ast.walk(wf) if isinstance(c, ast.Call) and str(wp.seg(c.func)) == "build_tuples.append"]
+    if not adds:
+        raise AnalysisError("C03.R17: build_tuples.append of wrap_function not found")
+    for c in adds:
+        atoms = pyflow.path_atoms(c, stop=wf, seg=wp.seg)
+        names = set(t for t, p in atoms)
+        n += 1
+        run.check(R, "wrapp.Wrapp.wrap_function:returned-arguments", ("hidden", False) in atoms and "implied" not in names,
+                  "an intent(out)/(inout) argument is added to the returned values under %s: it must be left out exactly when "
+                  "the argument is +hidden (an implied argument is never intent(out)); `int *f(int *len +intent(out)+hidden) "
+                  "+dimension(len)` would return (list, len) instead of the list" % sorted(atoms), wp.loc(c))
+    run.floor(R, "result paths and returned-argument guards", n, 3)
+
+
 def run(repo, run, tier):
     tables.check_model_assumptions(repo)
     T = dict(py=tables.StatementTable(repo, "wrapp", "py_statements"),
@@ -843,4 +885,5 @@ def run(repo, run, tier):
     rule_r14(repo, run, T)
     rule_r15(repo, run, T)
     rule_r16(repo, run, T)
+    rule_r17(repo, run, T)
     run.assumptions.append("LP64 sizes; CPython PyArg_Parse / Py_BuildValue unit table in the checker")
